@@ -16,7 +16,7 @@ from sim.prop import Prop, sweep_expand, with_eager
 
 EPS = 1e-9
 NAMES = ("s", "outer", "a b", "", "100%", "%s", "x%dy", "scope")
-NTYPES = 10  # size of the state family
+NTYPES = 12  # size of the state family
 _FAMILY = None
 
 
@@ -69,6 +69,14 @@ def family():
             def __iter__(self):
                 return iter(())
 
+        def make_twin():
+            class Twin(State):
+                """Made by a factory: both products have the same __module__ and __qualname__ but are different types."""
+                v: int = 0
+            return Twin
+
+        TwinA, TwinB = make_twin(), make_twin()
+
         class M0(State):
             v: int = 1  # (a default that is NOT neutral for the sum/concat merges: nothing may be folded in that was not recorded)
 
@@ -79,15 +87,33 @@ def family():
             """A metric type that inherits from another metric type: it is a metric of its own."""
 
         _FAMILY = {
-            "types": (T0, T1, T2, G[int], G[str], TF, TM, TL, TU, TI),
+            "types": (T0, T1, T2, G[int], G[str], TF, TM, TL, TU, TI, TwinA, TwinB),
             "names": ("T0", "T1", "T2", "G[int]", "G[str]", "TF(falsy)", "TM(opt: int|Missing)", "TL(kind: Literal)", "TU(u: int|str)",
-                      "TI(iterable)"),
-            "defaultable": (True, False, True, False, False, True, True, False, False, True),
+                      "TI(iterable)", "Twin(first)", "Twin(second)"),
+            "defaultable": (True, False, True, False, False, True, True, False, False, True, True, True),
             "generic": G,
             "metrics": (M0, M1),
             "metric_sub": M0S,
         }
     return _FAMILY
+
+
+def resolve_states(eng, actor, pairs, frame):
+    """Fill frame.states from (type index, value) pairs; value 'same' = the instance the innermost enclosing block supplies."""
+    for ti, v in pairs:
+        if v == "same":
+            inst = None
+            for g in reversed(actor.stack):
+                if g.states.get(ti):
+                    inst = g.states[ti][-1]
+                    break
+            if inst is None:
+                inst = make_state(ti, 700000 + eng.next_uid())
+            else:
+                eng.sim.stats["same_state_instance_supplied_again"] += 1
+            frame.states.setdefault(ti, []).append(inst)
+        else:
+            frame.states.setdefault(ti, []).append(make_state(ti, v))
 
 
 def make_state(ti: int, val: int):
@@ -195,7 +221,7 @@ class Frame:
 class Actor:
     __slots__ = ("aid", "stack", "task", "ended", "end_exc", "parent", "harness_cancel", "spawned_in", "gate_forced",
                  "via", "held", "started", "cancel_landed", "gate_forced_seq", "pending_cancel", "caught_cancels",
-                 "exempt_cancel", "stale_cancel", "timeout_depth")
+                 "exempt_cancel", "stale_cancel", "timeout_depth", "cancel_self_seq")
 
     def __init__(self, aid, stack, parent=None):
         self.aid = aid
@@ -217,6 +243,7 @@ class Actor:
         self.exempt_cancel = False
         self.stale_cancel = False
         self.timeout_depth = 0
+        self.cancel_self_seq = None
 
 
 def _gate_forced_before(self, seq):
@@ -239,6 +266,7 @@ class DispDouble:
         self.enter_exc = None
         self.states = [make_state(ti, v) for ti, v in spec["states"]]
         self.raised_seq = None
+        self.exit_finished = False
 
     def __bool__(self):
         # a disposable may be a falsy object (e.g. an empty sized resource): it still has to be entered and exited
@@ -274,9 +302,21 @@ class DispDouble:
         return list(self.states)
 
     async def __aexit__(self, et, ev, tb):
+        try:
+            return await self._aexit(et, ev, tb)
+        finally:
+            self.exit_finished = True
+
+    async def _aexit(self, et, ev, tb):
         sim = self.eng.sim
         self.exit_calls.append((et, ev, sim.seq))
         sim.event("d-exit", self.uid)
+        # cleanup code may still use the context: it sees the state of the scope it belongs to (its own yield included)
+        self.eng.check_state_in_exit(self)
+        if self.spec.get("exit_barrier"):
+            # cleanups of one scope may depend on each other (a writer drains into a sink that is closed by its sibling):
+            # every one of them has to be STARTED before any can finish
+            await self.eng.exit_barrier(self)
         if self.spec.get("exit_spawns"):
             # cleanup starts a task (e.g. a final flush): the scope's group is still current, so the scope waits for it
             self.eng.spawn_from_double(self, held=self.spec["exit_spawns"] == 2, when="exit")
@@ -393,7 +433,7 @@ def _cfg_for(pid: str, profile: str) -> dict:
         c.update(disposables=2, lookup=True, max_blocks=14, max_depth=5, prebuilt=1)
     elif pid == "C02":
         w.update(probe=1, scope=5, updated=2, pause=2, raise_=2, try_=2, spawn=1, timeout_=1)
-        c.update(disposables=1, restore=True, owner_probe=True, spawn_fail=1, spawn_gate=(2, 1, 1), prebuilt=1, completion=1)
+        c.update(disposables=1, restore=True, owner_probe=True, spawn_fail=1, spawn_gate=(2, 1, 1), prebuilt=1, completion=1, logger=1)
         if profile in ("disp", "disp-sweep"):
             c.update(disposables=3, disp_faults=2)
         if profile in ("sweep", "disp-sweep", "cancel"):
@@ -410,7 +450,8 @@ def _cfg_for(pid: str, profile: str) -> dict:
         if profile == "disp":
             c.update(disposables=3, disp_faults=1, p_async=7)
     elif pid == "C07":
-        w.update(scope=4, updated=1, spawn=3, pause=3, cancel_self=1, check_cancel=2, try_=2, timeout_=1)
+        w.update(scope=4, updated=1, spawn=3, pause=3, cancel_self=1, check_cancel=2, try_=2, timeout_=1,
+                 raise_=1 if profile in ("disp-sweep", "cancel") else 0)
         c.update(cancel_rules=True, join=False, spawn_gate=(1, 2, 2), top_scope=True, p_async=4, disposables=1,
                  disp_pause=2, try_swallow=0, swallow_cancel=1,
                  cancel_mode="sweep" if profile in ("sweep", "disp-sweep") else ("random" if profile == "cancel" else None))
@@ -432,7 +473,7 @@ def _cfg_for(pid: str, profile: str) -> dict:
     elif pid == "C10":
         w.update(scope=4, spawn=2, record=6, pause=2, updated=1, gc=1)
         c.update(completion=2, metrics_rules=True, spawn_via_loop=1, spawn_gate=(2, 1, 0), max_blocks=6, tick=1,
-                 disposables=2, disp_pause=2, p_async=6, prebuilt=1)
+                 disposables=2, disp_pause=2, p_async=6, prebuilt=1, trace=1)
     elif pid == "C19":
         w.update(scope=5, log=6, spawn=2, pause=1, updated=1, reseed=1)
         c.update(logger=1, trace=1, names=len(NAMES), log_rules=True, completion=1, spawn_gate=(2, 1, 0),
@@ -477,6 +518,10 @@ class Gen:
         n = s.weighted((2, 4, 2, 1), "nstates")
         for _ in range(n):
             ti = s.draw(NTYPES, "type")
+            if s.chance(1, 10, "same-instance-again"):
+                # the very object an enclosing block supplies is supplied again here (together with whatever else)
+                out.append((ti, "same"))
+                continue
             out.append((ti, self.value_for(ti)))
             if allow_many and s.chance(1, 8, "dup-type"):
                 out.append((ti, self.fresh()))
@@ -498,6 +543,8 @@ class Gen:
                 d["exit_raise"] = int(s.chance(c["disp_faults"], 6, "xraise")) * (1 + s.weighted((3, 1, 1), "xraise-kind"))
                 d["exit_true"] = int(s.chance(1, 6, "xtrue"))
                 d["falsy"] = int(s.chance(1, 8, "falsy"))
+            if not c["disp_faults"] and not c["cancel_mode"] and c["disp_rules"]:
+                d["exit_barrier"] = int(s.chance(1, 3, "exit-barrier"))
             d["yield_as"] = s.weighted((3, 1, 1), "yield-as")  # list, tuple, one-shot iterator
             d["eq_group"] = int(s.chance(1, 6, "equal-disposables"))
             if c["w"]["spawn"] and self.actors < c["max_actors"] and s.chance(1, 8, "enter-spawns"):
@@ -603,7 +650,7 @@ class Gen:
             elif k == "log":
                 if s.chance(1, 8, "set-level"):
                     ops.append(["loglevel", s.draw(2, "new-level")])
-                ops.append(["log", s.draw(4, "level"), s.draw(6, "fmt"), s.draw(4, "exc")])
+                ops.append(["log", s.draw(4, "level"), s.draw(7, "fmt"), s.draw(4, "exc")])
             elif k == "pause":
                 ops.append(["pause"])
             elif k == "timeout_":
@@ -679,12 +726,15 @@ class Engine:
         self.uncaught_exit_errors = []
         self.cancel_info = None
         self.loggers = [logging.getLogger(f"hv-L{i}") for i in range(3)]
+        # a scope may be given a LoggerAdapter (it has .log and .name, but none of Logger's other attributes)
+        self.loggers[2] = logging.LoggerAdapter(self.loggers[2], {})
         self.prebuilt = {}
         self.last_disposables = {}
         self.metric_objs = {}
         self._idents = {}
         self.root_level = logging.DEBUG
         self.scope_idents = {}
+        self.barriers = {}
 
     # -- helpers ------------------------------------------------------------------------------
     def ident(self, obj):
@@ -761,6 +811,34 @@ class Engine:
                                     self.ident(ans[1]) if self.is_supplied_anywhere(ans[1]) else 0))
                 else:
                     obs.append((ti, mode, ans[0], type(ans[1]).__name__ if ans[1] is not None else ""))
+        if check and self.cfg["lookup"] and not self.cfg["disp_rules"] and in_ctx:
+            # nobody ever supplies the UNPARAMETRISED generic: its specialisations are other types, so asking for it gives the
+            # explicit default, else a default-constructed instance of exactly G (else MissingState)
+            G = fam["generic"]
+            dflt = fam["types"][3](v=424242)
+            for kw in ({}, {"default": dflt}):
+                try:
+                    r = ctx.state(G, **kw)
+                    ans = ("inst", r)
+                except MissingState:
+                    ans = ("missing", None)
+                except SimStop:
+                    raise
+                except BaseException as exc:  # noqa: BLE001
+                    ans = ("error", exc)
+                try:
+                    constructed = G()  # (a type-variable attribute accepts anything, MISSING included: the bare generic is defaultable)
+                except Exception:  # noqa: BLE001
+                    constructed = None
+                if kw:
+                    want_ok = ans[0] == "inst" and ans[1] is dflt
+                elif constructed is not None:
+                    want_ok = ans[0] == "inst" and type(ans[1]) is G and ans[1] == constructed
+                else:
+                    want_ok = ans[0] == "missing"
+                if not want_ok:
+                    sim.fail("lookup-unparametrised-generic", f"ctx.state(G{', default=X' if kw else ''}) returned {ans[1]!r} ({ans[0]}): only "
+                             f"specialisations of G are ever supplied (expected the explicit default / a default-constructed G)", default=int(bool(kw)))
         sim.event("probe", actor.aid, len(actor.stack))
         return obs
 
@@ -961,8 +1039,7 @@ class Engine:
         f.spec = spec
         f.name = NAMES[spec["name"]]
         f.is_async = spec["async"]
-        for ti, v in spec["states"]:
-            f.states.setdefault(ti, []).append(make_state(ti, v))
+        resolve_states(self, actor, spec["states"], f)
         parent = self.innermost_scope(actor.stack)
         f.actor = actor
         f.parent_scope = parent
@@ -1107,8 +1184,7 @@ class Engine:
         from haiway import ctx
         f = Frame("updated", self.next_uid())
         self.all_frames.append(f)
-        for ti, v in op[1]:
-            f.states.setdefault(ti, []).append(make_state(ti, v))
+        resolve_states(self, actor, op[1], f)
         states = [x for lst in f.states.values() for x in lst]
         return f, ctx.updated(*states)
 
@@ -1368,8 +1444,7 @@ class Engine:
             sim.stats["update_object_entered_again"] += 1
             f2 = Frame("updated", self.next_uid())
             self.all_frames.append(f2)
-            for ti, v in again:
-                f2.states.setdefault(ti, []).append(make_state(ti, v))
+            resolve_states(self, actor, again, f2)
             before2 = self.observe(actor) if cfg["restore"] else None
             with ctx.updated(*[x for lst in f2.states.values() for x in lst]):
                 actor.stack.append(f2)
@@ -1573,6 +1648,31 @@ class Engine:
         if len(self.actors) >= 2:
             sim.nontrivial = True
 
+    def check_state_in_exit(self, double):
+        from haiway import MissingContext, MissingState, ctx
+        frame = next((f for f in self.frames if f.uid == double.scope_uid), None)
+        if frame is None or not frame.entered:
+            return
+        for st in double.states:
+            ti = self.fam["types"].index(type(st))
+            try:
+                got = ctx.state(type(st))
+            except (MissingContext, MissingState) as exc:
+                got = exc
+            if not any(got is c for c in frame.states.get(ti, ())):
+                self.sim.fail("state-in-cleanup", f"__aexit__ of disposable #{double.uid} (scope #{frame.uid}) asked for {self.fam['names'][ti]} and got "
+                              f"{got!r}; while a scope is being left its cleanup code still runs inside it")
+
+    async def exit_barrier(self, double):
+        frame = next((f for f in self.frames if f.uid == double.scope_uid), None)
+        mates = [d for d in frame.disposables if d.spec.get("exit_barrier")]
+        st = self.barriers.setdefault(frame.uid, {"fut": self.sim.loop.create_future(), "started": 0})
+        st["started"] += 1
+        self.sim.stats["disposable_exit_rendezvous"] += 1
+        if st["started"] >= len(mates) and not st["fut"].done():
+            st["fut"].set_result(None)
+        await asyncio.shield(st["fut"])
+
     def spawn_from_double(self, double, held, when="enter"):
         """A disposable's __aenter__ / __aexit__ spawns a background task into the scope that is being entered / left."""
         from haiway import ctx
@@ -1676,9 +1776,17 @@ class Engine:
         fmts = (("plain " + marker, ()), ("one %s " + marker, ("arg",)), ("two %s %d " + marker, ("x", 7)),
                 ("pct 100%% %s " + marker, ("y",)), ("map %(k)s %(n)d " + marker, ({"k": "v", "n": 3},)),
                 ("star %*d " + marker, (4, 2)))
-        text, args = fmts[fmt]
+        text, args = fmts[fmt % 6]
+        if fmt >= 6:
+            class Message:  # a non-str message (an exception, a lazily rendered object): logging accepts any object
+                def __init__(self, rendered):
+                    self.rendered = rendered
+
+                def __str__(self):
+                    return self.rendered
+            text, args = Message("object " + marker), ()
         if not args:
-            user = text
+            user = str(text)
         elif len(args) == 1 and isinstance(args[0], dict):
             user = text % args[0]
         else:
@@ -1804,7 +1912,7 @@ class Engine:
         actor.harness_cancel = True
         actor.pending_cancel = True
         sim.stats["fault:ctx_cancel"] += 1
-        sim.event("ctx-cancel", actor.aid)
+        actor.cancel_self_seq = sim.event("ctx-cancel", actor.aid)
         ctx.cancel()
         sim.nontrivial = True
 
@@ -1982,7 +2090,7 @@ class Engine:
         elif not inner_async.body_ended:
             where = "in-body"
         else:
-            waiting_disp = any(d.exit_calls and not d.exit_exc and d.spec["exit_pause"] for d in inner_async.disposables)
+            waiting_disp = any(d.exit_calls and not d.exit_finished for d in inner_async.disposables)
             where = "in-exit-disposables" if waiting_disp else "in-exit-wait"
         sim.stats[f"landing:{where}"] += 1
         sim.stats["fault:external_cancel"] += 1
@@ -1990,8 +2098,8 @@ class Engine:
         if inner_async is not None:
             if inner_async.child_failed:
                 aborting = True
-            if inner_async.body_ended and inner_async.body_exc is not None:
-                aborting = True
+            if inner_async.body_ended and inner_async.body_exc is not None and where != "in-exit-disposables":
+                aborting = True  # (the group only starts aborting when IT is left: while the disposables exit it is still intact)
             if any(d.exit_exc is not None for d in inner_async.disposables):
                 aborting = True  # disposing already failed: the group is told about that error and aborts
             if inner_async.tasks and any(d.enter_exc is not None for d in inner_async.disposables):
@@ -2038,6 +2146,11 @@ class Engine:
             if cfg["restore"]:
                 sim.fail_post("spurious-exception", f"actor {a.aid} ended with library exception {exc!r}", path="library")
                 return
+            # none of the generated programs asks the library for anything it may refuse: an exception that comes out of library
+            # code and ends a task is a failure under every property of the scope family
+            sim.fail_post("library-exception", f"actor {a.aid} ended with {type(exc).__name__} raised inside the library: {str(exc)[:120]}",
+                          error=type(exc).__name__)
+            return
         if cfg["join"]:
             for a in self.actors:
                 if a.task is not None and not a.task.done():
@@ -2084,6 +2197,15 @@ class Engine:
                         return True
         return False
 
+    @staticmethod
+    def raised_after(a, req_seq):
+        """The actor's own code raised (a `raise` op) AFTER the cancellation had been requested and before it could be
+        delivered: the task may legitimately end with that exception (if the way out happens not to suspend)."""
+        e = a.end_exc
+        tag = e.args[0] if isinstance(e, (Injected, InjectedBase, GeneratorExit)) and e.args else None
+        return (isinstance(tag, tuple) and len(tag) == 3 and tag[0] == "raise"
+                and req_seq is not None and tag[2] >= req_seq)
+
     def finish_cancel(self):
         sim = self.sim
         info = self.cancel_info
@@ -2096,6 +2218,9 @@ class Engine:
                 if only_injected(a.end_exc) and self.double_raised_after(a, 0):
                     sim.stats["exempt:cancellation_replaced_by_user_cleanup_error"] += 1
                     continue  # user-supplied code (a double) raised while the cancellation was propagating
+                if self.raised_after(a, a.cancel_self_seq):
+                    sim.stats["exempt:user_code_raised_before_the_cancellation_was_delivered"] += 1
+                    continue
                 sim.fail_post("cancel-swallowed", f"actor {a.aid} asked for its own cancellation (ctx.cancel, {a.caught_cancels} earlier "
                               f"request(s) caught by user code) and never caught this one, but its task ended "
                               f"{'with ' + repr(a.task.exception()) if a.task.exception() else 'normally'}",
@@ -2113,6 +2238,8 @@ class Engine:
         elif not victim.task.cancelled() and victim.pending_cancel and only_injected(victim.end_exc) \
                 and self.double_raised_after(victim, victim.cancel_landed):
             sim.stats["exempt:cancellation_replaced_by_user_cleanup_error"] += 1
+        elif not victim.task.cancelled() and victim.pending_cancel and self.raised_after(victim, victim.cancel_landed):
+            sim.stats["exempt:user_code_raised_before_the_cancellation_was_delivered"] += 1
         elif not victim.task.cancelled() and victim.pending_cancel:
             sim.fail_post("cancel-swallowed", f"actor {victim.aid} was cancelled ({info['where']}) and never caught it, but its task "
                           f"ended {'with ' + repr(victim.task.exception()) if victim.task.exception() else 'normally'}",
